@@ -423,6 +423,36 @@ pub fn eval_session_check(check: &str, case: &Case, replies: &[String]) -> Optio
                 Err(format!("none of the outputs taken at ops {} shows the record {} (they are: {})", idxs, rec, idxs.split(',').filter_map(|x| x.parse::<usize>().ok()).filter(|i| *i < replies.len()).map(|i| replies[i].clone()).collect::<Vec<_>>().join(" / ")))
             }
         }
+        // the output taken at op i is exactly these records
+        ["take-is", i, rest @ ..] => {
+            let i: usize = i.parse().unwrap();
+            let want = rest.join(" ");
+            if replies[i] == want {
+                Ok(())
+            } else {
+                Err(format!("output after op {} is {} instead of {}", i, replies[i], want))
+            }
+        }
+        // the output taken at op i has no record of the kind (first letter)
+        ["take-lacks-kind", i, kind] => {
+            let i: usize = i.parse().unwrap();
+            if replies[i].split(' ').any(|r| r.starts_with(kind)) {
+                Err(format!("output after op {} is {} - a {} record although the call ran one statement that produces none", i, replies[i], kind))
+            } else {
+                Ok(())
+            }
+        }
+        // exactly n records of the kind in the range
+        ["range-count", r, kind, n] => {
+            let (a, b) = parse_range(r);
+            let n: usize = n.parse().unwrap();
+            let got: usize = (a..=b.min(case.ops.len() - 1)).filter(|&i| case.ops[i] == "take").map(|i| replies[i].split(' ').filter(|x| x.starts_with(kind)).count()).sum();
+            if got == n {
+                Ok(())
+            } else {
+                Err(format!("{} {} records in ops {}-{} where exactly {} are due", got, kind, a, b, n))
+            }
+        }
         ["take-has", i, rec] => {
             let i: usize = i.parse().unwrap();
             if replies[i].split(' ').any(|r| r == *rec) {
